@@ -12,7 +12,8 @@
 (***************************************************************************)
 EXTENDS Ghost, Json
 
-CONSTANTS MaxN, Ops, LabelArgs, MultArgs, MaxMult, WeightArgs, EmitJson
+CONSTANTS MaxN, Ops, LabelArgs, MultArgs, MaxMult, WeightArgs, EmitJson,
+          InitN        \* both objects start with this many vertices
 
 VARIABLES gs,     \* <<g1, g2>>  the two objects
           hs,     \* <<h1, h2>>  their ghosts
@@ -64,8 +65,8 @@ CallsOf(k) ==
 
 Bounded(x) == Kind = "multi" => \A i, j \in VS(x.n) : x.lab[i][j] <= MaxMult
 
-Init == /\ gs = <<Empty(0), Empty(0)>>
-        /\ hs = <<GEmpty(0), GEmpty(0)>>
+Init == /\ gs = <<Empty(InitN), Empty(InitN)>>
+        /\ hs = <<GEmpty(InitN), GEmpty(InitN)>>
         /\ last = [kind |-> "init"]
 
 \* object k executes call c
@@ -88,6 +89,11 @@ Next == \/ Call(1) \/ Call(2)
         \/ Copy(1, 2) \/ Copy(2, 1)
 
 View == <<gs, hs>>
+
+\* a sub-space in which larger graphs are affordable: in each object all edges leave one vertex
+\* (operator== compares the neighbour lists vertex by vertex)
+SingleSource ==
+    \A k \in {1, 2} : Cardinality({i \in VS(gs[k].n) : \E j \in VS(gs[k].n) : gs[k].adj[i][j] > 0}) <= 1
 
 Emit == EmitJson =>
           PrintT(ToJson([from |-> <<Enc(gs[1]), Enc(gs[2])>>, act |-> last',
